@@ -186,6 +186,17 @@ class Enumerator:
             ys = [x for x in ast.walk(st.value) if isinstance(x, (ast.Yield, ast.YieldFrom))]
             if ys:
                 raise Unsupported("yield inside an assignment")
+            # a, b = x, y  (same arity, plain names, no name of the left side read on the right) is two assignments
+            if len(targets) == 1 and isinstance(targets[0], ast.Tuple) and isinstance(st.value, ast.Tuple) and len(targets[0].elts) == len(st.value.elts) \
+                    and all(isinstance(e, ast.Name) for e in targets[0].elts):
+                lhs = {e.id for e in targets[0].elts}
+                if not any(isinstance(n, ast.Name) and n.id in lhs for n in ast.walk(st.value)):
+                    evs = []
+                    for t_, v_ in zip(targets[0].elts, st.value.elts):
+                        if t_.id in self.defs:
+                            continue
+                        evs.append(("set", t_.id, self.tx(v_)))
+                    return [(evs, None)]
             live = []
             for t in targets:
                 if isinstance(t, ast.Name) and t.id in self.defs:
